@@ -9,6 +9,7 @@ leg 2: the REAL str_to_snake_case / process_name are run on every enumerated nam
 leg 3: map / plant traces are validated by Names_Trace.
 """
 import json
+import re
 import keyword
 import random
 
@@ -22,6 +23,7 @@ CONSTANTS Names <- AllNames
  Keywords <- KW
  Reserved <- RES
  Deviations <- NoDev
+ PlantNames <- PlantSet
 INVARIANT LawsHoldOrKnown
 INVARIANT NoSilentMerge
 CHECK_DEADLOCK FALSE
@@ -118,7 +120,7 @@ def run(tier, work, replay=None):
                                  "reserved": [chars(r) for r in true_reserved]}))
     rows_all = []
     pairs = []
-    for nameset, maxlen in (("enum", "3" if q else "5"), ("list", "3")):
+    for nameset, maxlen in (("enum", "3" if q else "4"), ("list", "3")):
         out = work.dir / f"rows_{nameset}.json"
         pf = work.dir / f"pairs_{nameset}.json"
         env = {"MAXLEN": maxlen, "PAIRLEN": "2" if (q or nameset == "list") else "3", "NAMESET": nameset, "LISTS_FILE": str(lists), "OUT_FILE": str(out),
@@ -186,7 +188,8 @@ def run(tier, work, replay=None):
     outs = pmap(lambda t: (t[1], plant(work, str(t[0]), *t[1])), list(enumerate(cand)))
     for (a, b, scope, snake), o in outs:
         feats = {"name": f"{a}+{b}", "scope": scope, "snake": snake, "shape": "pair",
-                 "kw_suffix_pair": bool(keyword.iskeyword(a) and b == a + "_")}
+                 "kw_suffix_pair": bool(keyword.iskeyword(a) and b == a + "_"),
+                 "digit_after_underscores": bool(re.match(r"_+[0-9]", a) or re.match(r"_+[0-9]", b))}
         fate = o.get("fate")
         if fate in ("crashed", "broken"):
             v.violation(feats, f"pair_{fate}", o)
